@@ -3,7 +3,7 @@
    one line per operation. *)
 From NV Require Import Base.Util Base.Sexp Base.IntTy Base.FloatBits Base.Float Base.Expr
      Macro.Surface Macro.Ast Macro.Parse Macro.Validate Macro.Messages Macro.Inventory Macro.GenTests
-     Sem.Guard Sem.Value Sem.Eval Sem.Conv Sem.Text Sem.Json Sem.Bytes Sem.ArbInt Sem.ArbStr Sem.ArbFloat Sem.ArbFloatDecide Sem.Order Spec.GuardSpec Spec.Reference Run.Lib Run.Decode.
+     Sem.Guard Sem.Value Sem.Eval Sem.Conv Sem.Text Sem.Json Sem.Bytes Sem.ArbInt Sem.ArbStr Sem.ArbStrDecide Sem.ArbFloat Sem.ArbFloatDecide Sem.Order Spec.GuardSpec Spec.Reference Run.Lib Run.Decode.
 From NV.Unicode Require UnicodeData UStr.
 Local Open Scope string_scope.
 
@@ -120,10 +120,19 @@ Definition run_op (d : decl) (op : sexp) : string :=
       | None => "range none"
       end
   | L [A "arb_decide"] =>
-      match arb_float_decide d with
-      | AVTotal => "total"
-      | AVPanicsOn bs => "panics " ++ pr_list "b" (map string_of_Z bs)
-      | AVUnknown => "unknown"
+      match d_family d with
+      | FStr =>
+          match arb_str_decide d with
+          | SVTotal => "total"
+          | SVPanicsOn bs => "panics " ++ pr_list "b" (map string_of_Z bs)
+          | SVUnknown => "unknown"
+          end
+      | _ =>
+          match arb_float_decide d with
+          | AVTotal => "total"
+          | AVPanicsOn bs => "panics " ++ pr_list "b" (map string_of_Z bs)
+          | AVUnknown => "unknown"
+          end
       end
   | L [A "spec"; v] =>
       match dec_value v with
